@@ -118,6 +118,8 @@ class LoopBody(X.SegmentVC):
         M = X.not_none(st, fresh("M", "str"))
         self.M = M.t
         st.assume(pos + z3.Length(M.t) <= z3.Length(src), z3.SubString(src, pos, z3.Length(M.t)) == M.t)  # A8: the match is source[pos:end]
+        # the same equation for the last character (a consequence, stated so that z3 need not derive it)
+        st.assume(z3.Implies(z3.Length(M.t) >= 1, X.char_at(src, pos + z3.Length(M.t) - 1) == X.char_at(M.t, z3.Length(M.t) - 1)))
         if sh.min_width >= 1:
             st.assume(z3.Length(M.t) >= 1)  # width fact
         gd = {}
@@ -171,6 +173,8 @@ class LoopBody(X.SegmentVC):
         st.assume(0 <= pos, pos <= z3.Length(src))
         # INVARIANT: lineno = 1 + number of line breaks in source[:pos]
         st.assume(self.lineno0.t == 1 + nl(z3.SubString(src, 0, pos)))
+        if "linestart" in self.clauses:
+            st.assume(z3.Implies(self.line_starting.t, self.at_line_start(pos)))  # INVARIANT of the flag (entry: LoopInit)
         self.regex = st.alloc(HObj(FakeRegex, path="regex"), initial=True)
         self.stack = st.alloc(HObj(FakeStack, path="stack"), initial=True)
         rules = st.alloc(HObj(FakeRules, path="rules"), initial=True)
@@ -292,6 +296,28 @@ class LoopBody(X.SegmentVC):
         ends_line = z3.And(n >= 1, X.char_at(self.M, n - 1) == X.NL)  # the last character of the match is a line break
         return to_term(self.local(out, self.R.line_starting), "bool") == ends_line
 
+    def at_line_start(self, pos):
+        """the text consumed so far (source[:pos]) is empty or ends in a line break"""
+        return z3.Or(pos == 0, X.char_at(self.source.t, pos - 1) == X.NL)
+
+    def p_linestart_after_match(self, pre, out):
+        """after every match the flag says whether the CONSUMED TEXT now ends in a line break because of this match:
+        line_starting' <=> the match is non-empty and source[pos' - 1] is a line break (stated on the working source and the
+        new position, not on whatever value the code looked at)"""
+        if out.kind != "break":
+            return None
+        pos2 = to_term(self.local(out, self.R.pos), "int")
+        ends = z3.And(z3.Length(self.M) >= 1, pos2 >= 1, X.char_at(self.source.t, pos2 - 1) == X.NL)
+        return to_term(self.local(out, self.R.line_starting), "bool") == ends
+
+    def p_linestart_invariant(self, pre, out):
+        """invariant (assumed on entry of the iteration, C12.lstrip.left relies on it): line_starting => pos == 0 or
+        source[pos - 1] is a line break, i.e. the flag is only ever set at the start of a line"""
+        if out.kind != "break":
+            return None
+        pos2 = to_term(self.local(out, self.R.pos), "int")
+        return z3.Implies(to_term(self.local(out, self.R.line_starting), "bool"), self.at_line_start(pos2))
+
     def offsets(self):
         """start offset (within the match) of each top-level piece"""
         offs, acc = [], z3.IntVal(0)
@@ -364,7 +390,8 @@ class LoopBody(X.SegmentVC):
 
     all_posts = [("common.paths", p_paths), ("common.no_internal_error", p_no_runtime_error), ("common.pos", p_pos),
                  ("lossless.pieces", p_lossless), ("lossless.line_starting", p_line_starting),
-                 ("lineno.tokens", p_lineno_tokens), ("lineno.invariant", p_lineno_invariant)]
+                 ("lineno.tokens", p_lineno_tokens), ("lineno.invariant", p_lineno_invariant),
+                 ("linestart.after_match", p_linestart_after_match), ("linestart.invariant", p_linestart_invariant)]
 
     # ------------------------------------------------------------------ witness / replay
     def concretize(self, model, pre, out):
@@ -434,7 +461,8 @@ def lex_oracle(env, src, removed_ok=None):
     return None
 
 
-def loop_tasks(clauses, prefix):
+def loop_tasks(clauses, prefix, cls=None):
+    cls = cls or LoopBody
     ts = []
     seen = set()
     for fam, sh in X.rule_shapes():
@@ -446,9 +474,9 @@ def loop_tasks(clauses, prefix):
                 if key in seen:
                     continue
                 seen.add(key)
-                ts.append(LoopBody(fam, sh, j, clauses, prefix))
+                ts.append(cls(fam, sh, j, clauses, prefix))
         else:
-            ts.append(LoopBody(fam, sh, None, clauses, prefix))
+            ts.append(cls(fam, sh, None, clauses, prefix))
     return ts
 
 
@@ -471,9 +499,9 @@ class LoopInit(X.SegmentVC):
     prop = PROP
     target = "jinja2.lexer:Lexer.tokeniter"
 
-    def __init__(self, state):
+    def __init__(self, state, prefix="C39.tokeniter.init"):
         self.state = state
-        super().__init__(PROP, f"C39.tokeniter.init[state={state!r}]")
+        super().__init__(PROP, f"{prefix}[state={state!r}]")
 
     def segment(self):
         P = X.tokeniter_parts()
